@@ -30,8 +30,10 @@ enum Where {
     /// the module restarts itself (requested at its 2nd message, one second later) and the
     /// restarted incarnation panics in this start stage, i.e. inside its restart event
     RestartStage(usize),
+    /// the module shuts itself down (no panic) at its 2nd message and panics in at_sim_end
+    EndAfterShutdown,
 }
-const PLACES: [Where; 13] = [Where::None, Where::Start(0), Where::Start(1), Where::Msg(1), Where::Msg(2), Where::Msg(3), Where::Msg(5), Where::End, Where::Task, Where::TaskThenShutdown, Where::TaskThenRestart, Where::RestartStage(0), Where::RestartStage(1)];
+const PLACES: [Where; 14] = [Where::None, Where::Start(0), Where::Start(1), Where::Msg(1), Where::Msg(2), Where::Msg(3), Where::Msg(5), Where::End, Where::Task, Where::TaskThenShutdown, Where::TaskThenRestart, Where::RestartStage(0), Where::RestartStage(1), Where::EndAfterShutdown];
 
 struct P {
     log: Log,
@@ -120,6 +122,9 @@ impl Module for P {
                     current().shutdow_and_restart_in(Duration::from_secs(1));
                 }
             }
+            if self.n == 2 && self.fault == Where::EndAfterShutdown {
+                current().shutdown();
+            }
             if self.n == 2 && self.inc == 1 && matches!(self.fault, Where::RestartStage(_)) {
                 current().shutdow_and_restart_in(Duration::from_secs(1));
             }
@@ -138,7 +143,7 @@ impl Module for P {
             return Ok(());
         }
         lg(&self.log, format!("{}:end", self.name));
-        assert!(!(self.fault == Where::End && !self.silent_variant), "endboom");
+        assert!(!(matches!(self.fault, Where::End | Where::EndAfterShutdown) && !self.silent_variant), "endboom");
         Ok(())
     }
 }
@@ -237,7 +242,7 @@ fn check(c: &Case, clean: &[String]) -> Result<u64, String> {
     }
     // the faulty module itself: nothing after the panic (messages, wake-ups); tear-down excluded
     for (name, w) in [("f", c.f), ("g", c.g), ("h", c.h)] {
-        if matches!(w, Where::None | Where::Task | Where::End | Where::TaskThenShutdown | Where::TaskThenRestart) {
+        if matches!(w, Where::None | Where::Task | Where::End | Where::EndAfterShutdown | Where::TaskThenShutdown | Where::TaskThenRestart) {
             continue;
         }
         // tear-down is not a message or wake-up: the log is cut where tear-down begins (module a's at_sim_end runs first)
@@ -317,7 +322,7 @@ impl Property for C13 {
         ]
     }
     fn required_features(&self, _tier: Tier) -> Vec<&'static str> {
-        vec!["single_fault", "two_faulty_modules", "three_faulty_modules", "catching_stereotype", "fault_in_start_stage", "fault_in_teardown", "fault_in_joined_task", "fault_in_nth_message", "joined_task_panic_then_shutdown_of_the_module", "fault_in_start_stage_of_a_restart"]
+        vec!["single_fault", "two_faulty_modules", "three_faulty_modules", "catching_stereotype", "fault_in_start_stage", "fault_in_teardown", "fault_in_joined_task", "fault_in_nth_message", "joined_task_panic_then_shutdown_of_the_module", "fault_in_start_stage_of_a_restart", "fault_in_teardown_of_a_shut_down_module"]
     }
     fn explore(&self, ctx: &mut Ctx) {
         let clean = run(&CLEAN, false);
@@ -378,6 +383,7 @@ impl Property for C13 {
                                 Where::Start(_) => ctx.hit("fault_in_start_stage"),
                                 Where::RestartStage(_) => ctx.hit("fault_in_start_stage_of_a_restart"),
                                 Where::End => ctx.hit("fault_in_teardown"),
+                                Where::EndAfterShutdown => ctx.hit("fault_in_teardown_of_a_shut_down_module"),
                                 Where::Task => ctx.hit("fault_in_joined_task"),
                                 Where::TaskThenShutdown | Where::TaskThenRestart => ctx.hit("joined_task_panic_then_shutdown_of_the_module"),
                                 Where::Msg(_) => ctx.hit("fault_in_nth_message"),
